@@ -830,28 +830,17 @@ func ruleInstalledAddrFresh(c *Ctx, rule string) {
 					}
 				}
 			}
-			switch b := base.(type) {
-			case *ssa.Alloc:
-				if b.Parent() == fn {
-					// also: a GetFrom decode into it must not sit in a loop with the install without re-allocation —
-					// a local declared inside the loop body is a fresh Alloc per iteration in SSA
-					c.OK(rule, fname(fn), target.Name()+" address", w.instrPos(cs), "IP read from a PeerAddress local to this invocation ("+b.Comment+")")
-				} else {
-					c.Bad(rule, fname(fn), target.Name()+" address", w.instrPos(cs), "the installed IP is read from storage owned by another function")
-				}
-			case *ssa.FreeVar:
-				c.Bad(rule, fname(fn), target.Name()+" address", w.instrPos(cs), "the installed IP is read from a PeerAddress variable captured from the enclosing function ("+b.Name()+"): it is shared by every decode of this request, and the decoder re-uses the IP's backing array, so a later XOR-PEER-ADDRESS overwrites the address held by the permission installed earlier (which then never expires under its own key)")
-			default:
-				// shared storage is fine when every decode starts from the zero value: the
-				// decoder then allocates a fresh IP instead of re-using the previous backing
-				// array. Required: in this function a store of the zero PeerAddress into that
-				// storage dominates the decode call (GetFrom / GetFromAs on its address), which
-				// dominates the install.
+			// shared storage is fine when every decode starts from the zero value: the
+			// decoder then allocates a fresh IP instead of re-using the previous backing
+			// array. Required: in this function a store of the zero PeerAddress into that
+			// storage dominates the decode call (GetFrom / GetFromAs on its address), which
+			// dominates the install.
+			zeroedBeforeDecode := func() bool {
 				okZero := false
 				var zeroSt ssa.Instruction
 				w.eachInstr(fn, func(in ssa.Instruction) {
 					st, isSt := in.(*ssa.Store)
-					if !isSt || !w.sameKey(st.Addr, base) {
+					if !isSt || !(st.Addr == base || w.sameKey(st.Addr, base)) {
 						return
 					}
 					if cst, isC := st.Val.(*ssa.Const); isC && cst.Value == nil {
@@ -867,12 +856,30 @@ func ruleInstalledAddrFresh(c *Ctx, rule string) {
 						if n := call.Call.StaticCallee().Name(); n != "GetFrom" && n != "GetFromAs" {
 							return
 						}
-						if w.sameKey(call.Call.Args[0], base) && instrDominates(zeroSt, call) && instrDominates(call, cs) {
+						if (call.Call.Args[0] == base || w.sameKey(call.Call.Args[0], base)) && instrDominates(zeroSt, call) && instrDominates(call, cs) {
 							okZero = true
 						}
 					})
 				}
-				if okZero {
+				return okZero
+			}
+			switch b := base.(type) {
+			case *ssa.Alloc:
+				if b.Parent() == fn {
+					// also: a GetFrom decode into it must not sit in a loop with the install without re-allocation —
+					// a local declared inside the loop body is a fresh Alloc per iteration in SSA
+					c.OK(rule, fname(fn), target.Name()+" address", w.instrPos(cs), "IP read from a PeerAddress local to this invocation ("+b.Comment+")")
+				} else {
+					c.Bad(rule, fname(fn), target.Name()+" address", w.instrPos(cs), "the installed IP is read from storage owned by another function")
+				}
+			case *ssa.FreeVar:
+				if zeroedBeforeDecode() {
+					c.OK(rule, fname(fn), target.Name()+" address", w.instrPos(cs), "the captured decode target is reset to the zero value before every decode: the decoder allocates a fresh IP each time")
+					break
+				}
+				c.Bad(rule, fname(fn), target.Name()+" address", w.instrPos(cs), "the installed IP is read from a PeerAddress variable captured from the enclosing function ("+b.Name()+"): it is shared by every decode of this request, and the decoder re-uses the IP's backing array, so a later XOR-PEER-ADDRESS overwrites the address held by the permission installed earlier (which then never expires under its own key)")
+			default:
+				if zeroedBeforeDecode() {
 					c.OK(rule, fname(fn), target.Name()+" address", w.instrPos(cs), "the decode target is reset to the zero value before every decode: the decoder allocates a fresh IP each time")
 				} else {
 					c.Bad(rule, fname(fn), target.Name()+" address", w.instrPos(cs), "the installed IP is read from shared storage "+w.key(base))
